@@ -11,16 +11,9 @@
 // C06_TRACE=1 prints every operation (T lines, iteration-order dependent).
 package main
 
-import (
-	"os"
-	"unsafe"
-)
+import "os"
 
 var traceOn bool
-
-func mapPtr[K comparable, V comparable](m *map[K]V) unsafe.Pointer {
-	return *(*unsafe.Pointer)(unsafe.Pointer(m))
-}
 
 func split(s string, sep byte) []string {
 	var out []string
@@ -46,15 +39,15 @@ func atoi(s string) int {
 func runK[K comparable](ko *keyOps[K], sp *spec) int {
 	switch sp.vname {
 	case "int":
-		return run(ko, &valInt, sp)
+		return run(newDriver(ko, &valInt), sp)
 	case "string":
-		return run(ko, &valStr, sp)
+		return run(newDriver(ko, &valStr), sp)
 	case "empty":
-		return run(ko, &valEmpty, sp)
+		return run(newDriver(ko, &valEmpty), sp)
 	case "a5":
-		return run(ko, &valA5, sp)
+		return run(newDriver(ko, &valA5), sp)
 	case "a17":
-		return run(ko, &valA17, sp)
+		return run(newDriver(ko, &valA17), sp)
 	}
 	println("bad value type", sp.vname)
 	os.Exit(2)
